@@ -152,7 +152,7 @@ theorem R_local (F : Flags) (o : Obs) (last : Option Nat) (x : Act) (ev : Ev) (y
   all_goals (try cases h)
   all_goals (try (first
     | (refine ⟨last, rfl, R_same last x _ rfl rfl ?_ ?_ ?_ hR'⟩ <;> simp [preDefer, running, preBody, *]; done)
-    | (refine ⟨last, rfl, R_leave last x _ rfl ?_ ?_ ?_ ?_ hR'⟩ <;> simp [preDefer, running, preBody, Act.stop, *]; done)))
+    | (refine ⟨last, rfl, R_leave last x _ rfl ?_ ?_ ?_ ?_ hR'⟩ <;> simp [preDefer, running, preBody, Act.stop, Act.stopDeps, *]; done)))
   -- guardsPassed
   · exact ⟨last, rfl, R_next last x _ 0 hd hpre.1 (by rw [hbody]; simp)⟩
   -- cmdStart (body)
@@ -340,7 +340,7 @@ theorem G_local (F : Flags) (o : Obs) (x : Act) (ev : Ev) (y : Act) (eff : Eff)
   all_goals (try (repeat' split at h))
   all_goals (try cases h)
   all_goals (try (first
-    | (refine G_same x _ rfl rfl rfl ?_ ?_ ?_ hG' <;> simp [preDefer, post, preBody, Act.stop, *]; done)))
+    | (refine G_same x _ rfl rfl rfl ?_ ?_ ?_ hG' <;> simp [preDefer, post, preBody, Act.stop, Act.stopDeps, *]; done)))
   -- guardsPassed
   · exact G_next x _ 0 hpre.1 hpre.2
   -- cmdEnd (body)
